@@ -89,6 +89,10 @@ def _program(draw):
         if n["k"] == "func" and n.get("cache") and "fid" not in n and not any(m.get("fid") == n["name"] for m in nodes) and prob(draw, 0.3):
             nodes[i] = {**n, "consts": [n["name"] + "_p", n["name"] + "_q"]}
             labels.add("literal_constants")
+        elif n["k"] == "func" and n.get("cache") and "fid" not in n and not any(m.get("fid") == n["name"] for m in nodes) and not n.get("emit") and prob(draw, 0.2):
+            # the node function is a functools.partial (no source, no code object of its own); a twin pre-binds another value
+            nodes[i] = {**n, "partial": 1}
+            labels.add("partial_as_node_function")
         elif n["k"] == "func" and n.get("cache") and "fid" not in n and not any(m.get("fid") == n["name"] for m in nodes) and not n.get("emit") and prob(draw, 0.3):
             # a function with retrievable source; its twin differs in the INDENTATION of one statement only
             nodes[i] = {**n, "indent": 0}
@@ -147,7 +151,7 @@ def _case(draw, tier):
     nruns = draw(st.integers(2, 8))
     # an alternative program sharing the cache: one cached node re-declared with permuted outputs / swapped inputs / swapped targets
     alt = None
-    cands = [n for n in nodes if n.get("cache") and (len(n.get("outs", [])) >= 2 or len(n.get("params", [])) >= 2 or n["k"] == "ifelse" or (n.get("emit") and n["k"] == "func") or n.get("consts") or n.get("indent") is not None)]
+    cands = [n for n in nodes if n.get("cache") and (len(n.get("outs", [])) >= 2 or len(n.get("params", [])) >= 2 or n["k"] == "ifelse" or (n.get("emit") and n["k"] == "func") or n.get("consts") or n.get("indent") is not None or n.get("partial") is not None)]
     if cands and prob(draw, 0.6):
         a = draw(st.sampled_from(cands))
         opts = []
@@ -163,6 +167,8 @@ def _case(draw, tier):
             opts += ["permute_consts", "permute_consts"]
         if a.get("indent") is not None:
             opts += ["reindent", "reindent", "reindent"]
+        if a.get("partial") is not None:
+            opts += ["other_partial_state"] * 3
         if opts:
             alt = {"node": a["name"], "how": draw(st.sampled_from(opts))}
     # variants 4 and 5 supply True and 1.0 where variant 1 supplies 1: equal (==, hash) but DIFFERENT arguments
@@ -187,6 +193,31 @@ def _unj(x):
 
 def strategy(tier):
     return _case(tier)
+
+
+def _check_value_structure(case, tmpdir, stats, labels):
+    """A cached value whose parts SHARE one mutable object (rows = [r, r]) comes back from disk with that structure: a consumer
+    that writes through one alias sees it through the other, exactly as in the uncached run."""
+    from hypergraph import AsyncRunner, SyncRunner
+    from hypergraph.cache import DiskCache
+
+    spec = {"nodes": [
+        {"k": "func", "name": "mkrows", "params": ["seed"], "defaults": {}, "outs": ["rows"], "cache": True, "expr": "[[seed]] * 2 + [[seed]]"},
+        {"k": "func", "name": "paint", "params": ["rows"], "defaults": {}, "outs": ["painted"], "expr": "(rows[0].append('x'), (rows[0] is rows[1], rows[0] is rows[2], [list(r) for r in rows]))[1]"},
+    ]}
+    d = os.path.join(tmpdir, "structure")
+    want = None
+    for i, rk in enumerate(("sync", "sync", "async")):
+        ctx = Ctx(compact=True)
+        g = make_graph(ctx, spec, "sync")
+        u = run_sync(g, {"seed": 5})
+        runner = SyncRunner(cache=DiskCache(d)) if rk == "sync" else AsyncRunner(cache=DiskCache(d))
+        o = (run_sync if rk == "sync" else run_async)(g, {"seed": 5}, runner=runner)
+        if o.status != "completed" or u.status != "completed" or o.values.get("painted") != u.values.get("painted"):
+            raise Violation("c09.not_transparent", f"[value structure, run {i} ({rk}, {'warm' if i else 'cold'} DiskCache)] a cached value rows=[r, r, other] whose first two parts are ONE list: the consumer reports "
+                            f"(same object?, ...) {J(o.values.get('painted'))}; without a cache {J(u.values.get('painted'))}", what="object_sharing", warm=bool(i))
+    stats["value_structure_checked"] = stats.get("value_structure_checked", 0) + 1
+    labels.add("disk_value_with_shared_substructure")
 
 
 def _check_raw_entries(case, tmpdir, stats):
@@ -310,6 +341,9 @@ def _alt_nodes(nodes, alt):
         elif alt["how"] == "permute_consts":
             m["consts"] = list(reversed(n["consts"]))  # ANOTHER function: same code shape, the two constants in swapped roles
             m["fid"] = n["name"] + "~pc"
+        elif alt["how"] == "other_partial_state":
+            m["partial"] = 2  # ANOTHER function: the same base function with another pre-bound value
+            m["fid"] = n["name"] + "~pk"
         elif alt["how"] == "reindent":
             m["indent"] = 1  # ANOTHER function: the same tokens, one statement moved out of the loop
             m["fid"] = n["name"] + "~in"
@@ -490,6 +524,11 @@ def _check_model(tag, attributed, nodes, ctx_u_calls, ctx_c, model, keymap, stat
             raise Violation("c09.key_collision", f"[{tag}] one cache key stands for {keymap[key]} and for {akey}", what="collision")
         keymap[key] = akey
         want, _ = model.get(akey)
+        if n.get("partial") is not None and want and not hit:
+            # a functools.partial has no code of its own: the library identifies it by the OBJECT, and every graph build here makes
+            # a new one - a miss is legitimate (a hit for another pre-bound state never is: see key_collision above)
+            stats["partial_rebuilt_miss"] = stats.get("partial_rebuilt_miss", 0) + 1
+            want = False
         if hit != want:
             raise Violation("c09.hit_prediction", f"[{tag}] node {n['name']} args {J(calls[k])}: cache {'hit' if hit else 'miss'} but the LRU model over (function, outputs, targets, arguments) says {'hit' if want else 'miss'}",
                             observed="hit" if hit else "miss")
@@ -505,6 +544,11 @@ def _check_model(tag, attributed, nodes, ctx_u_calls, ctx_c, model, keymap, stat
 
 def check_case(case, ev):
     nodes = case["nodes"]
+    if case["backend"].startswith("mem") and not case["backend"].endswith("None"):
+        # (object-identified partials occupy one slot per rebuilt object; the LRU reference is kept exact by using them with
+        # unbounded backends only)
+        nodes = [{k_: v_ for k_, v_ in n.items() if k_ != "partial"} for n in nodes]
+        case = {**case, "nodes": nodes, "alt": None if (case.get("alt") or {}).get("how") == "other_partial_state" else case.get("alt")}
     labels = set(case["labels"]) | {"backend:" + case["backend"].split(":")[0]}
     gspec = {"nodes": nodes}
     try:
@@ -557,6 +601,7 @@ def check_case(case, ev):
             # a hit must not invoke the function; a miss must
             _calls_by_node(cur_nodes, rec_c.events, ctx_c, hits=per_node_exec)
         if tmpdir is not None:
+            _check_value_structure(case, tmpdir, stats, labels)
             _check_raw_entries(case, tmpdir, stats)
         # ---- fault enumeration on disk
         if tmpdir is not None and case["faults"]:
